@@ -57,6 +57,17 @@ def listener_pipeline(res, tier, clauses, pid):
                         "TLS-terminated fall-through uses the real l4tls matcher and handler (in-process Caddy with a self-signed certificate) and a crypto/tls client over loopback TCP"]
 
 
+def add_to(res, tier, clauses, pid):
+    """the listener-wrapper runs as a PART of another property's check: violations of `clauses` are reported under
+    pid, the coverage goes into res.coverage['listener_wrapper']"""
+    sub = Result(pid, tier, res.level)
+    listener_pipeline(sub, tier, clauses, pid)
+    res.violations += sub.violations
+    res.coverage["listener_wrapper"] = dict(clauses=list(clauses), traces_validated_against_impl=sub.coverage["traces_validated_against_impl"],
+                                            scenarios=sub.coverage["runs"]["scenarios"], delivered_connections=sub.coverage["runs"]["delivered_connections"])
+    res.coverage["traces_validated_against_impl"] = res.coverage.get("traces_validated_against_impl", 0) + sub.coverage["traces_validated_against_impl"]
+
+
 def run(res, tier):
     listener_pipeline(res, tier, ("L1", "L2", "L3", "L4", "L5", "L6", "L7", "L8"), "C13")
 
